@@ -143,9 +143,10 @@ pub fn yield_point(label: &'static str, addr: usize) {
     let t = before();
     after(t, addr, label, 0, None, true);
 }
-/// a scheduling point that also reports a value
-pub fn yield_value(label: &'static str, addr: usize, value: u64) {
+/// a scheduling point that also reports a value; `value` is evaluated after the step was granted
+pub fn yield_value<F: FnOnce() -> u64>(label: &'static str, addr: usize, value: F) {
     let t = before();
+    let value = value();
     after(t, addr, label, value, None, true);
 }
 
